@@ -90,7 +90,7 @@ PROPS = {
             'handle_if_caught is proved), and WHEN traps run (command boundary, interrupted wait): that is scheduling of the '
             'async read-eval loop.'
             " Unit cmdlist (Verus, yash-semantics/src/command.rs): Command::execute runs exactly the one command it is (simple, compound or function definition), once, then exactly one trap round (run_traps_for_caught_signals), then refreshes the job statuses - nothing else - and answers the command's result unless only the traps diverted, the more severe divert if both did; List::execute runs its items in order, each exactly once, up to and including the first that diverts, hands that divert on unchanged and runs nothing after it (every item when none diverts)."
-            " Unit waitcore (Verus, yash-builtin/src/wait/core.rs wait_for_any_job_or_trap): the internal SIGCHLD disposition is asked for before the first wait() and without it nothing is waited for; a status reported by wait() is forwarded to the job table unchanged and ends the step; while waiting, every signal the system reports is offered to the trap runner exactly once, in the order reported, and the first one whose trap ran ends the waiting with exactly that signal and the trap's result (nothing happens after it); a SIGINT with its default action ends the waiting right after the sleep that reported it."),
+            " Unit waitcore (Verus, yash-builtin/src/wait/core.rs wait_for_any_job_or_trap): the internal SIGCHLD disposition is asked for before the first wait() and without it nothing is waited for; a status reported by wait() is forwarded to the job table unchanged and ends the step; while waiting, every signal the system reports is offered to the trap runner exactly once, in the order reported, and the first one whose trap ran ends the waiting with exactly that signal and the trap's result (nothing happens after it); a SIGINT with its default action ends the waiting right after the sleep that reported it. Command::await_jobs (wait.rs) waits for each operand that designates a job, in order, once; an operand that designates no job counts as status 127; the answer is the status of the LAST operand; without operands all jobs are waited for, once."),
         'trusted_base': ['Verus 0.2026.09.13 + Z3', 'vstd model of map entries (hash_map::Entry, used in place of btree_map::Entry)',
                          '/verif/tools/vextract.py'],
         'assumptions': [
@@ -545,7 +545,7 @@ PROPS = {
             " Unit subshellstart (Verus, yash-env/src/subshell/config.rs Config::start - the common start-up code of every subshell kind): the job control granted is what the configuration asks for if the shell controls jobs at all; in the PARENT nothing but one fork happens, bracketed - iff the child is to ignore SIGINT / SIGQUIT, i.e. the configuration says so and the child is not job-controlled - by blocking the two signals and restoring exactly the saved mask on EVERY path after a successful block, including a failed fork (the parent's signal mask, stack and options are as before); the CHILD body, checked on a copy of the parent's environment (what fork gives it), does only process-group business (setpgid / tcsetpgrp, and only under job control), then disowns the jobs, calls TrapSet::enter_subshell exactly once with (ignore = asked for and not job-controlled, keep stopper dispositions = not job-controlled) BEFORE the task, runs the task exactly once in a Subshell frame on top of the parent's stack, with the parent's options unchanged and the job control granted, and then exits - it never returns into the parent's code."
             " Unit asynclist (Verus, yash-semantics/src/command/item.rs Item::execute, execute_async, async_body, nullify_stdin): a synchronous item is exactly its and-or list, run in this shell, once; for `cmd &` exactly one child is started for exactly this and-or list, with background job control asked for and SIGINT / SIGQUIT ignored in it, the list does not run in this shell and the child is not awaited; if it was started, one job with its process ID enters the job table (owned, running, not yet reported; job-controlled iff job control was granted), `$!` becomes that process ID and `$?` is 0; if not, no job, `$!` untouched, an interrupt with status 126. In the child the list runs exactly once, its result is applied and the EXIT trap runs once, in this order; under job control standard input is left alone; nullify_stdin makes standard input /dev/null and changes nothing else (its assert_eq! is discharged from POSIX's lowest-free-descriptor rule)."
             ' Unit jobstatus (Verus, yash-env/src/job.rs handle_job_status and the two conversions it uses, From<ProcessResult> for ExitStatus / ProcessState): the status handed on for a synchronously awaited child is the status its result stands for (its own when it exited, the one standing for the signal when it was killed or stopped); a child that was STOPPED - and no other - enters the job table as a job-controlled, owned job with exactly its process ID and the halted state; the shell is interrupted (with that status) exactly when it is interactive and the child was stopped, or was killed by SIGINT while SIGINT has its default action.'
-            " Unit waitcore (Verus, yash-builtin/src/wait/core.rs wait_for_any_job_or_trap): the internal SIGCHLD disposition is asked for before the first wait() and without it nothing is waited for; a status reported by wait() is forwarded to the job table unchanged and ends the step; while waiting, every signal the system reports is offered to the trap runner exactly once, in the order reported, and the first one whose trap ran ends the waiting with exactly that signal and the trap's result (nothing happens after it); a SIGINT with its default action ends the waiting right after the sleep that reported it."),
+            " Unit waitcore (Verus, yash-builtin/src/wait/core.rs wait_for_any_job_or_trap): the internal SIGCHLD disposition is asked for before the first wait() and without it nothing is waited for; a status reported by wait() is forwarded to the job table unchanged and ends the step; while waiting, every signal the system reports is offered to the trap runner exactly once, in the order reported, and the first one whose trap ran ends the waiting with exactly that signal and the trap's result (nothing happens after it); a SIGINT with its default action ends the waiting right after the sleep that reported it. Command::await_jobs (wait.rs) waits for each operand that designates a job, in order, once; an operand that designates no job counts as status 127; the answer is the status of the LAST operand; without operands all jobs are waited for, once."),
         'trusted_base': ['Verus 0.2026.09.13 + Z3', 'Kani 0.68.0 + CBMC 6.11', '/verif/tools/vextract.py, /verif/tools/kunit.py'],
         'assumptions': [
             'unit waitsub: enabling the SIGCHLD disposition, System::wait, JobList::update_status and wait_for_signal are opaque calls that update a ghost monitor in the reduced Env (rewrite rule tokens-to-helper for the three field-method calls); From<signal::Number> for ExitStatus (number + 0x180) is uninterpreted; the spec functions of the From / TryFrom spec traits of vstd are declared by hand and the real bodies are proved to obey them; await points dropped; termination not claimed; WHEN children change state is not modelled',
